@@ -75,7 +75,7 @@ func c14Tok(v []byte) string {
 
 func (r *c14Rec) setGBH(v string) {
 	r.lastGBH = v
-	if len(r.gbhs) < 64 {
+	if len(r.gbhs) < 4096 {
 		r.gbhs = append(r.gbhs, v)
 	}
 }
@@ -607,6 +607,8 @@ func (e *c14Env) serveL(ind *c14Indirect, i int, eap bool, faultAt int, what, la
 		}
 	}
 	switch {
+	case status == 200 && strings.HasPrefix(what, "unknown-hash"):
+		e.out.Fail(key, fmt.Sprintf("the leaf refers to a hash the store does not know, but the entry was served with success (%d bytes of extra_data: %s)", len(served), verifkit.Hex(served)))
 	case status == 200 && corruptSeen:
 		e.fail(key+" "+ind.corruptKind[string(c14HashOf(stored))], fmt.Sprintf("the stored chain is corrupted (lookup returned %d corrupted bytes) but the entry was served with success (%d bytes of extra_data, in-backend mode has %d)", (strings.Index(gbh, "/")+1)/2, len(served), len(want)))
 	case status == 200 && string(served) != string(want):
@@ -945,6 +947,48 @@ func TestVerifC14(t *testing.T) {
 			}
 			e.serveRange(ind, a, b, 0, strings.TrimSuffix(state, ","), "")
 		}
+		// --- backend leaves in hash form whose hash the store does not know, of every length the TLS structs allow
+		// (1..256; SHA-256 gives 32): an unknown hash is an error response whatever its length
+		var someKey []byte
+		ind.rec.mu.Lock()
+		for k := range ind.store.m {
+			someKey = []byte(k)
+			break
+		}
+		ind.rec.mu.Unlock()
+		for _, hl := range []int{1, 20, 31, 32, 33, 64, 255, 256} {
+			for variant := 0; variant < 2; variant++ {
+				h := r.Bytes(hl)
+				kind := "random"
+				if variant == 1 && someKey != nil { // a known hash cut short / extended
+					kind = "known-prefix"
+					if hl == 32 {
+						continue
+					}
+					h = append(append([]byte{}, someKey...), r.Bytes(256)...)[:hl]
+				}
+				for _, pre := range []bool{false, true} {
+					var extra []byte
+					var err error
+					if pre {
+						extra, err = tls.Marshal(ct.PrecertChainEntryHash{PreCertificate: ct.ASN1Cert{Data: r.Bytes(1 + r.Intn(40))}, IssuanceChainHash: h})
+					} else {
+						extra, err = tls.Marshal(ct.CertificateChainHash{IssuanceChainHash: h})
+					}
+					if err != nil {
+						t.Fatal(err)
+					}
+					leaf := &trillian.LogLeaf{LeafValue: []byte{2, byte(hl)}, ExtraData: extra}
+					ind.back.fl.QueueLeafF(&trillian.QueueLeafRequest{Leaf: leaf})
+					e.dback.fl.QueueLeafF(&trillian.QueueLeafRequest{Leaf: leaf})
+					i := ind.back.size() - 1
+					what := fmt.Sprintf("unknown-hash-len=%d-%s-precert=%v", hl, kind, pre)
+					e.serve(ind, i, false, 0, what)
+					e.serve(ind, i, true, 0, what)
+					out.Count("class:unknown-hash-leaf")
+				}
+			}
+		}
 		// --- unknown layouts handed to the reader
 		for _, junk := range [][]byte{{}, {0}, {0, 0}, {0, 0, 1}, {0, 0, 1, 7, 0, 0}, r.Bytes(5), {0, 0, 0, 0}, {0, 1, 9, 9}} {
 			ind.back.fl.QueueLeafF(&trillian.QueueLeafRequest{Leaf: &trillian.LogLeaf{LeafValue: []byte{1}, ExtraData: junk}})
@@ -984,6 +1028,9 @@ func TestVerifC14(t *testing.T) {
 		ind.rec.mu.Unlock()
 		out.T("reset", "ok")
 
+		if ci == 0 || (ci == 4 && verifkit.Thorough()) {
+			e.bulkRanges(cc)
+		}
 		// --- concurrent phase (run under -race): writers and readers, faults at random calls
 		e.concurrent(cc, pool)
 	}
@@ -1183,6 +1230,52 @@ func (e *c14Env) poisonedRange(ind *c14Indirect) {
 		delete(ind.store.m, string(h))
 		ind.rec.mu.Unlock()
 	}
+}
+
+// bulkRanges: a log of 1000 entries in external-storage mode, read in ranges of 64..1000 entries (and a few shorter
+// ones) and compared entry by entry with the in-backend mode (serveRange): every leaf of a large reply is fixed, none is
+// served in hash form.
+func (e *c14Env) bulkRanges(cc c14CacheCfg) {
+	saveD, saveB := e.direct, e.dback
+	defer func() { e.direct, e.dback = saveD, saveB }()
+	e.dback = newC14Backend()
+	e.direct = e.mkLogInfo(e.dback, &directIssuanceChainService{})
+	ind := e.mkIndirect(cc.name, cc.mk())
+	ind.rec.trace = true
+	var chains [][][]byte
+	for k := 0; k < 12; k++ {
+		n := 1 + e.r.Intn(3)
+		var c [][]byte
+		for j := 0; j < n; j++ {
+			c = append(c, e.r.Bytes(1+e.r.Intn(30)))
+		}
+		chains = append(chains, c)
+	}
+	for k := 0; k < 1000; k++ {
+		c := chains[e.r.Intn(len(chains))]
+		if !e.synth(ind, c, k%3 == 0) {
+			e.out.Fail("bulk harness", "synthetic submission refused")
+			return
+		}
+	}
+	time.Sleep(2 * time.Millisecond)
+	type rg struct{ a, b int }
+	rs := []rg{{3, 72}, {100, 199}, {0, 998}, {0, 63}, {0, 64}, {1, 65}, {936, 999}, {0, 62}, {500, 571}, {10, 16}}
+	for k := 0; k < verifkit.N(4, 30); k++ {
+		ln := 64 + e.r.Intn(937)
+		a := e.r.Intn(1000 - ln + 1)
+		rs = append(rs, rg{a, a + ln - 1})
+	}
+	for _, x := range rs {
+		e.serveRange(ind, x.a, x.b, 0, "", fmt.Sprintf("bulk-log-of-1000;range-%d-%d", x.a, x.b))
+		e.out.Count("class:bulk-range")
+	}
+	// one large range with a fault late in it: all or nothing also holds for big replies
+	e.serveRange(ind, 100, 299, 150+e.r.Intn(100), "", "bulk-log-of-1000;range-100-299")
+	ind.rec.mu.Lock()
+	ind.rec.trace = false
+	ind.rec.mu.Unlock()
+	e.out.T("reset", "ok")
 }
 
 // refusedThenAccepted plays: submission refused because storage.Add fails -> the same chain submitted again and
